@@ -23,7 +23,9 @@ from .common import MachineryError, ensure_repo_on_path, scratch
 EPS = {"float32": 2.0**-24, "float64": 2.0**-53, "complex64": 2.0**-24, "complex128": 2.0**-53}
 REAL_OF = {"float32": "float32", "float64": "float64", "complex64": "float32", "complex128": "float64"}
 CTYPE = {"float32": "float", "float64": "double", "complex64": "float _Complex", "complex128": "double _Complex"}
-ITYPES = ["cell", "exterior_facet", "interior_facet", "vertex"]
+# positions in ufcx_form.form_integral_offsets (ufcx.h: cell = 0, exterior_facet = 1, interior_facet = 2, vertex = 3, ridge = 4;
+# the offsets array has one entry more than there are types)
+ITYPES = ["cell", "exterior_facet", "interior_facet", "vertex", "ridge"]
 
 
 # ---------------------------------------------------------------------------
@@ -74,6 +76,32 @@ def facet_point(cell, f, xi):
         va = [Fr(int(round(c))) for c in geom[fv[a + 1]]]
         X = [x + xi[a] * (p - q) for x, p, q in zip(X, va, v0)]
     return X
+
+
+def ridge_cellname(cell):
+    """Reference cell of the ridges (codimension 2): edges of 3D cells, vertices of 2D cells."""
+    return {"triangle": "vertex", "quadrilateral": "vertex", "tetrahedron": "interval", "hexahedron": "interval",
+            "prism": "interval"}[cell]
+
+
+def ridge_vertices(cell, r):
+    """Vertex numbers (0-based, basix's sub-entity numbering) of ridge r."""
+    geom, topo = ref_geometry(cell)
+    tdim = geom.shape[1]
+    if tdim < 2:
+        raise OutOfModel("ridges need a cell of dimension >= 2")
+    return [int(v) for v in topo[tdim - 2][r]]
+
+
+def ridge_point(cell, r, xi):
+    """X(s) = V_a + s (V_b - V_a) on ridge r = (a, b) of a 3D cell; the vertex itself on a 2D cell."""
+    geom, _ = ref_geometry(cell)
+    rv = ridge_vertices(cell, r)
+    va = [Fr(int(round(c))) for c in geom[rv[0]]]
+    if len(rv) == 1:
+        return va
+    vb = [Fr(int(round(c))) for c in geom[rv[1]]]
+    return [a + xi[0] * (b - a) for a, b in zip(va, vb)]
 
 
 def nperms(fcell):
@@ -140,6 +168,8 @@ class Program:
             return 1
         if self.itype == "vertex":
             return len(topo[0])
+        if self.itype == "ridge":
+            return len(topo[self.tdim - 2])
         return len(topo[self.tdim - 1])
 
 
@@ -226,6 +256,8 @@ def rule_for(part, prog, entity):
         ecell = prog.cell
     elif prog.itype == "vertex":
         ecell = "vertex"
+    elif prog.itype == "ridge":
+        ecell = ridge_cellname(prog.cell)
     else:
         ecell = facet_cellname(prog.cell, entity)
     if part.mode == "custom":
@@ -301,6 +333,8 @@ class Oracle:
                 elif prog.itype == "vertex":
                     geom, _ = ref_geometry(prog.cell)
                     xs = [[Fr(int(round(c))) for c in geom[ent[s]]] for _ in pts]
+                elif prog.itype == "ridge":
+                    xs = [ridge_point(prog.cell, ent[s], perm_point(ecell, perm[s], p)) for p in pts]
                 else:
                     xs = [facet_point(prog.cell, ent[s], perm_point(ecell, perm[s], p)) for p in pts]
                 xq.append(xs)
@@ -318,7 +352,10 @@ class Oracle:
                           "pts": [[fr(c) for c in p] for p in pts], "wts": [fr(w) for w in wts],
                           "xq": [[[fr(c) for c in p] for p in xs] for xs in xq], "tabs": tabs,
                           "uses_normal": part.uses_normal, "has_cond": part.has_cond, "geos": part.geos})
-        self.confs.append({"prog": pidx, "ent": list(ent), "perm": list(perm), "parts": parts})
+        conf = {"prog": pidx, "ent": list(ent), "perm": list(perm), "parts": parts}
+        if prog.itype == "ridge":
+            conf["rverts"] = ridge_vertices(prog.cell, ent[0])      # basix's numbering; Fem.tla compares with RefCell.tla
+        self.confs.append(conf)
         self._conf_key[key] = len(self.confs)
         return len(self.confs)
 
@@ -558,9 +595,10 @@ def _pythag(rnd):
     return rnd.choice([(3, 4), (4, 3), (-3, 4), (4, -3), (5, 12), (0, 2), (3, 0), (0, -1), (-2, 0), (6, 8)])
 
 
-def make_geometry(prog: Program, kind: str, rnd: random.Random, facet=None):
+def make_geometry(prog: Program, kind: str, rnd: random.Random, facet=None, ridge=None):
     """Integer coordinate dofs of one cell.  kind: affine | nonaffine | manifold.
-    With `facet` given (facet integrals) the facet's measure and normal are kept rational."""
+    With `facet` given (facet integrals) the facet's measure and normal are kept rational;
+    with `ridge` given (ridge integrals) the ridge's length."""
     td, gd = prog.tdim, prog.gdim
     if kind == "manifold" or gd > td:
         if td == 1:
@@ -574,6 +612,9 @@ def make_geometry(prog: Program, kind: str, rnd: random.Random, facet=None):
         return affine_geometry(prog, rnd, M=M)
     if facet is not None:
         M = _facet_friendly(prog, rnd, facet)
+        nodes = affine_geometry(prog, rnd, M=M)
+    elif ridge is not None:
+        M = _ridge_friendly(prog, rnd, ridge)
         nodes = affine_geometry(prog, rnd, M=M)
     else:
         nodes = affine_geometry(prog, rnd)
@@ -611,6 +652,10 @@ def make_geometry(prog: Program, kind: str, rnd: random.Random, facet=None):
         nv = len(topo[0])
         nodes = [[3 * c for c in n] for n in nodes]
         cand = list(range(nv, len(nodes))) if len(nodes) > nv else list(range(nv))
+        if ridge is not None and len(nodes) == nv:
+            # degree-1 cell: x restricted to an edge is affine in s, so the edge keeps its (rational) length as
+            # long as its two end points stay where they are
+            cand = [n for n in cand if n not in ridge_vertices(prog.cell, ridge)]
         for n in rnd.sample(cand, max(1, len(cand) // 2)):
             nodes[n] = [c + rnd.choice([-1, 1]) for c in nodes[n]]
     return nodes
@@ -643,14 +688,36 @@ def _facet_friendly(prog, rnd, facet):
     raise MachineryError("no facet-friendly geometry found")
 
 
+def _ridge_friendly(prog, rnd, ridge):
+    """An integer matrix M (gd x td), det != 0 and small, such that ridge `ridge` = (a, b) has a rational length
+    |M (V_b - V_a)| (2D cells: the ridge is a vertex, nothing to ask for)."""
+    geom, _ = ref_geometry(prog.cell)
+    td = prog.tdim
+    rv = ridge_vertices(prog.cell, ridge)
+    for _ in range(2000):
+        M = [[rnd.randint(-3, 3) for _ in range(td)] for _ in range(td)]
+        dt = abs(round(np.linalg.det(np.array(M, dtype=float))))
+        if dt == 0 or dt > (4 if td == 3 else 6):            # keeps K's denominators small (as affine_geometry does)
+            continue
+        if len(rv) == 1:
+            return M
+        t = [int(round(b - a)) for a, b in zip(geom[rv[0]], geom[rv[1]])]
+        e = [sum(M[c][k] * t[k] for k in range(td)) for c in range(td)]
+        l2 = sum(c * c for c in e)
+        if math.isqrt(l2) ** 2 == l2:
+            return M
+    raise MachineryError("no ridge-friendly geometry found")
+
+
 # ---------------------------------------------------------------------------
 # parent side: enumerate the case space with TLC, farm items out, judge
 
 _FS_CACHE = None
 
 
-def enumerate_formspace(chk=None, facets=False, exprs=False, complex_terms=False):
-    """All valid abstract cases of FormSpace.tla, as TLC enumerates them."""
+def enumerate_formspace(chk=None, facets=False, exprs=False, complex_terms=False, ridges=False):
+    """All valid abstract cases of FormSpace.tla, as TLC enumerates them.  facets=True: the facet / vertex cases
+    (measures ds, dS, dP); ridges=True: the ridge cases (measure dr) of the same FCase space."""
     global _FS_CACHE
     if _FS_CACHE is None:
         d = tlc.stage("formspace", ["FormSpace"], {"FormSpace.cfg": ""})
@@ -677,14 +744,17 @@ def enumerate_formspace(chk=None, facets=False, exprs=False, complex_terms=False
         chk.add(formspace_cases=sum(len(x) for x in _FS_CACHE))
     if exprs:
         return _FS_CACHE[2]
+    if ridges:
+        return [c for c in _FS_CACHE[1] if c["measure"] == "dr"]
     if facets:
-        return _FS_CACHE[1]
+        return [c for c in _FS_CACHE[1] if c["measure"] != "dr"]
     return [c for c in _FS_CACHE[0] if complex_terms or c["term"] not in ("cplx", "cmathfn", "ccond")]   # need a complex scalar type
 
 
 _NDOF = {"P1": 1, "P2": 3, "P3": 6, "DG0": 0.4, "DG1": 1, "vP1": 2.5, "vP2": 7, "symP1": 3, "TH": 8, "RT1": 1, "N1": 1.5,
          "BDM1": 2, "RTxDG0": 1.5, "bubble": 1.5, "real": 0.3, "quad": 1, "RTCF1": 1.5, "RTCE1": 1.5, "iso": 3}
 _CELLW = {"interval": 0.3, "triangle": 1, "quadrilateral": 2, "tetrahedron": 3, "hexahedron": 10}
+_RIDGEW = {"triangle": 0.15, "quadrilateral": 0.3, "tetrahedron": 1, "hexahedron": 4, "prism": 2.5}    # points on an edge / one vertex
 
 
 def case_cost(c):
@@ -694,6 +764,8 @@ def case_cost(c):
     r = {"exact": 2.0, "custom": 1.0, "vertex": 1.0}[c["rule"]]
     rank2 = 0.3 if c["term"] in ("load", "gradload", "energy", "xint", "nload", "fload", "area", "jumpload") else 1.0
     side = 4 if c.get("measure") == "dS" else 1
+    if c.get("measure") == "dr":
+        return (_NDOF[c["elem"]] ** 2) * _RIDGEW[c["cell"]] * r * rank2
     return (_NDOF[c["elem"]] ** 2) * _CELLW.get(c["cell"], 6) * r * rank2 * side
 
 
